@@ -25,7 +25,7 @@ IQ = "_RNvXsb_NtNtCs6qibz2J5iDx_14aranya_runtime7storage6linearINtB5_15LinearFac
 
 
 # `loop { .. }` of the session merge iterator's next(): at most (#session items + 1) iterations per call
-QM = ("_RNvXs3_NtNtCs6qibz2J5iDx_14aranya_runtime6client7sessionINtB5_13QueryIteratorNtNtB5_23___verif_session_overlay5VIterNtB1f_5CIter"
+QM = ("_RNvXs3_NtNtCs6qibz2J5iDx_14aranya_runtime6client7sessionINtB5_13QueryIteratorNtNtB5_23___verif_session_overlay5PIterNtB1f_5CIter"
       "ENtNtNtNtCs8xvirJzNMvV_4core4iter6traits8iterator8Iterator4nextB9_.0")
 QY = ("_RNvXs3_NtNtCs6qibz2J5iDx_14aranya_runtime6client7sessionINtB5_13QueryIteratorNtNtB5_23___verif_session_overlay5VIterINtB5_8YokeIter"
       "NtB5_10PrefixIterINtNtCs6xMQmN1AWUs_5alloc4sync3ArcINtNtB9_6___vmap8BTreeMapNtNtB2r_6string6StringIB2V_NtNtB9_7storage4KeysINtNtCs8xvirJzNMvV_"
